@@ -317,8 +317,13 @@ def check_property(prop, tier, seed, out=print):
                     fallback(h, agg)
                     continue
                 for v, r in reproduced:
-                    rv = dict(r["violation"], harness=h.name)
-                    k = match_known(known, prop, rv) or match_known(known, prop, v)
+                    same = [x for x in r.get("all_violations", []) if x["assert"] == v["assert"]]
+                    rv = dict(same[0] if same else r["violation"], harness=h.name)
+                    k = match_known(known, prop, rv) if same or not r.get("all_violations") else None
+                    if k is None and not same:
+                        # the real run violates other assertions than the model path did: every one of them must be a listed finding
+                        ks = [match_known(known, prop, dict(x, harness=h.name)) for x in r.get("all_violations", [r["violation"]])]
+                        k = ks[0] if ks and all(ks) else None
                     if k:
                         known_seen.append((k, v))
                     else:
